@@ -1,0 +1,22 @@
+// Copyright 2024 The Go Authors. All rights reserved.
+// Use of this source code is governed by a BSD-style
+// license that can be found in the LICENSE file.
+
+//go:build verif && (!goexperiment.jsonv2 || !go1.25)
+
+package jsontext
+
+import "sync"
+
+// VerifPools exposes the package's coder pools to the deterministic
+// simulator under /verif. It exists only in builds with the "verif" tag.
+func VerifPools() map[string]*sync.Pool {
+	return map[string]*sync.Pool{
+		"jsontext.bufferedEncoder":    bufferedEncoderPool,
+		"jsontext.streamingEncoder":   streamingEncoderPool,
+		"jsontext.bytesBufferEncoder": bytesBufferEncoderPool,
+		"jsontext.bufferedDecoder":    bufferedDecoderPool,
+		"jsontext.streamingDecoder":   streamingDecoderPool,
+		"jsontext.objectMember":       &objectMemberPool,
+	}
+}
